@@ -74,6 +74,21 @@ def Db.tableMissing (db : Db) (p : Prod) : Bool :=
     | none => false
   | _, _ => false
 
+/-- `-t TAG` on a setup line (`processArgs`: `requestedVRO = [TAG] + vro`, pushed for this line and popped after it —
+also when the line does not resolve or its table cannot be read).  Modelled on the class of tables the harness
+generates: the product the line names has no table lines of its own (undeclared, table file missing, or a leaf), so
+no other line is resolved while the tag is in front of the VRO, and the tag's whole effect is on the line itself:
+the version carrying the tag is taken, whatever version the line writes; without such a version the line is
+resolved as written.  (Threading the pushed VRO into the recursion — a tagged line above a product with
+dependencies — is not modelled.)  `tagged` maps (product, tag) to the declared version carrying the tag. -/
+def applyLineTag (tagged : List ((Str × Str) × Str)) (d : Dep) (tag : Option Str) : Dep :=
+  match tag with
+  | none => d
+  | some t =>
+    match tagged.lookup (d.name, t) with
+    | some v => { d with ver := some v }
+    | none => d
+
 /-- `Eups.findProduct(name, version)` / `findProductFromVRO(name, version)` under the simple rule -/
 def Db.find (db : Db) (n : Str) (v : Option Str) : Option Prod :=
   match v with
